@@ -176,14 +176,15 @@ def any_existing_file(U, n, extra):
 def _long_enum(tier, **_):
     exts = ["", ".x", ".tar.gz", "." + "e" * 40, "." + "e" * 228, "." + "e" * 240, " .y", ". "]
     for base in (224, 225, 226, 228, 229, 230, 231, 232, 260, 300):
-        for fill in ("a", "a b", "a.", " "):
+        for fill in ("a", "a b", "a.", " ", "CONa", "LPT1x"):          # the last two: names starting with a reserved device name
             for ext in exts:
                 for k in (0, 1, 2, 11):
                     yield {"base": base, "fill": fill, "ext": ext, "k": k}
 
 
 @unit("C38", covers=[(MISC, "clean_file_name")], level="bounded",
-      note="names of 224..300+ characters x fill patterns x extensions (incl. very long ones) x 0/1/2/11 colliding files")
+      note="names of 224..300+ characters x fill patterns (incl. names starting with a reserved device name) x extensions (incl. very "
+           "long ones) x 0/1/2/11 colliding files")
 def long_names(U):
     m = U.mod(MISC)
     g = U.given or {"base": 231, "fill": "a", "ext": ".x", "k": 1}
